@@ -80,7 +80,7 @@ def job_limits(job) -> report.JobResult:
     spec = FORMS[job["form"]]
     boundary = b"bnd"
     parts = build_form(spec)
-    body = C.encode_form(parts, boundary, pad=job.get("pad", b""))
+    body = C.encode_form(parts, boundary, pad=job.get("pad", b""), eq=job.get("eq", b"="))
     nparts = len(spec)
     fbytes = sum(n for k, n in spec if k == "field")
     cutlists = [[], list(range(1, len(body))), [len(body) // 2], list(range(7, len(body), 7))]
@@ -133,7 +133,7 @@ def job_limits(job) -> report.JobResult:
                 mp = m.eval(maxp_v, True).as_long()
                 mm = None if mem_none else m.eval(maxm_v, True).as_long()
                 wit = {"form": job["form"], "parts": spec, "cuts": cuts if len(cuts) < 6 else f"every {cuts[1] - cuts[0]}", "cuts_list": cuts,
-                       "max_form_parts": mp, "max_form_memory_size": mm, "sink": job.get("sink"), "pad_hex": job.get("pad", b"").hex()}
+                       "max_form_parts": mp, "max_form_memory_size": mm, "sink": job.get("sink"), "pad_hex": job.get("pad", b"").hex(), "eq_hex": job.get("eq", b"=").hex()}
                 with shims.off():
                     cp = concrete_limits(wit)
                 if klass is not None:
@@ -155,7 +155,7 @@ def job_limits(job) -> report.JobResult:
 def concrete_limits(w):
     spec = [tuple(x) for x in w["parts"]]
     boundary = b"bnd"
-    body = bytes(C.encode_form(build_form(spec), boundary, pad=bytes.fromhex(w.get("pad_hex", ""))))
+    body = bytes(C.encode_form(build_form(spec), boundary, pad=bytes.fromhex(w.get("pad_hex", "")), eq=bytes.fromhex(w.get("eq_hex", "3d"))))
     nparts = len(spec)
     fbytes = sum(n for k, n in spec if k == "field")
     over = nparts > w["max_form_parts"] or (w["max_form_memory_size"] is not None and fbytes > w["max_form_memory_size"])
@@ -310,6 +310,9 @@ def jobs(tier: str):
     for i in range(b["forms"]):
         out.append(dict(name=f"limits/form{i}", kind="limits", form=i, weight=20))
     out.append(dict(name="limits/form3/padded-delimiters", kind="limits", form=3, pad=b" \t" * 20, weight=200))
+    for i in (2, 4):
+        for tag, eq in (("blank-before-equals", b" ="), ("blanks-around-equals", b" = "), ("tab-before-equals", b"\t=")):
+            out.append(dict(name=f"limits/form{i}/{tag}", kind="limits", form=i, eq=eq, weight=20))
     for i in (2, 4, 9):  # forms with file parts
         out.append(dict(name=f"limits/form{i}/sink-falsy-while-empty", kind="limits", form=i, sink="len", weight=20))
     out.append(dict(name="twin/limits", kind="limits", form=1, twin=True))
